@@ -244,9 +244,27 @@ func (fc *FCtx) evalUnary(e *ast.UnaryExpr, st *State) Val {
 	return Val{}
 }
 
+// evalRecv: `<-ch`. Yields an arbitrary well-typed value. With the ghosts ChanSent/ChanRecv declared, a receive is
+// only possible when something was sent that has not been received yet (obligation "recv-available": the
+// receiver never waits for a value that is never sent), and it is counted in ChanRecv.
 func (fc *FCtx) evalRecv(e *ast.UnaryExpr, st *State) Val {
-	oos("channel receive")
-	return Val{}
+	ch := fc.info().TypeOf(e.X)
+	ct, ok := ch.Underlying().(*types.Chan)
+	if !ok {
+		oos("receive from a non-channel")
+	}
+	s := fc.U.SortOf(ct.Elem())
+	v := Val{T: fc.U.Fresh("recv", s), S: s, GoT: ct.Elem()}
+	st.assume(fc.U.WF(v))
+	if r, ok := st.ghost["ChanRecv"]; ok {
+		if sent, ok2 := st.ghost["ChanSent"]; ok2 {
+			fc.oblige(st, "recv-available", fmt.Sprintf("(< %s %s)", r.T, sent.T), "a value was sent that has not been received yet (the receive does not block forever)", e.Pos())
+		}
+		st.ghost["ChanRecv"] = Val{T: fmt.Sprintf("(+ %s 1)", r.T), S: r.S}
+	} else {
+		fc.note("channel receive modelled as an arbitrary value (no ChanRecv ghost declared)")
+	}
+	return v
 }
 
 func (fc *FCtx) eqTerm(a, b Val) string {
